@@ -142,9 +142,10 @@ inline std::string describe_death(const CaseResult &r) {
   return "exit " + std::to_string(r.exitcode);
 }
 inline void run_batch(long n, const std::function<std::string(long)> &fn, const std::function<void(long, const CaseResult &)> &sink,
-                      int per_case_alarm_s = 20) {
-  long next = 0;
+                      int per_case_alarm_s = 20, long max_timeouts = -1) {
+  long next = 0, timeouts = 0;
   while (next < n) {
+    if (max_timeouts >= 0 && timeouts > max_timeouts) return; // every hang costs a whole alarm period: stop here, the caller reports the cap
     int p[2];
     if (pipe(p) != 0) { perror("pipe"); _exit(95); }
     fflush(stdout);
@@ -190,7 +191,7 @@ inline void run_batch(long n, const std::function<std::string(long)> &fn, const 
     (void)begun;
     CaseResult cr;
     cr.died = 1;
-    if (WIFSIGNALED(st)) { cr.sig = WTERMSIG(st); cr.timeout = (cr.sig == SIGALRM); }
+    if (WIFSIGNALED(st)) { cr.sig = WTERMSIG(st); cr.timeout = (cr.sig == SIGALRM); if (cr.timeout) timeouts++; }
     else cr.exitcode = WEXITSTATUS(st);
     sink(k, cr);
     next = k + 1;
